@@ -83,7 +83,7 @@ theorem resolveA_live (L : List Nat) : ∀ (y : Ys) (s : St), s.mode = true → 
   | .dict _ l, s, hm, hL => by simp only [resolveA]; exact gatherA_live L l s hm (by simpa [Ys.live] using hL)
   | .sub y, s, hm, hL => by simp only [resolveA]; exact resolveA_live L y s hm (by simpa [Ys.live] using hL)
   | .pval _, s, hm, _ => by simp only [resolveA, hm, if_true]; exact Ext.refl _ s
-  | .gco _, s, hm, _ => by simp only [resolveA, hm, if_true]; exact Ext.refl _ s
+  | .gco y, s, hm, hL => by simp only [resolveA]; exact resolveA_live L y s hm (by simpa [Ys.live] using hL)
 theorem gatherA_live (L : List Nat) : ∀ (l : YsL) (s : St), s.mode = true → (∀ x ∈ l.live, x ∈ L) →
     Ext (inL L) [] s (gatherA l s).2
   | .nil, s, _, _ => by simp only [gatherA]; exact Ext.refl _ s
